@@ -90,12 +90,17 @@ def compare(name, current):
     diffs = []
     for f in sorted(set(base) | set(current)):
         if base.get(f) != current.get(f):
+            # only what is new needs looking at: a site or a collection that went away cannot break the property
             if isinstance(current.get(f), list) or isinstance(base.get(f), list):
                 b, c = base.get(f) or [], current.get(f) or []
                 added = [x for x in c if x not in b]
                 removed = [x for x in b if x not in c]
-                diffs.append("%s: %s: added %s removed %s" % (name, f, added[:3], removed[:3]))
-            else:
+                if added:
+                    diffs.append("%s: %s: added %s removed %s" % (name, f, added[:3], removed[:3]))
+            elif isinstance(current.get(f), int) and isinstance(base.get(f, 0), int):
+                if current.get(f) > base.get(f, 0):
+                    diffs.append("%s: %s: %s -> %s" % (name, f, base.get(f), current.get(f)))
+            elif current.get(f) is not None:
                 diffs.append("%s: %s: %s -> %s" % (name, f, base.get(f), current.get(f)))
     return diffs
 
